@@ -253,13 +253,33 @@ class RecordingStream:
         pass
 
 
+# What the clocks do between the steps of a scenario: (wall step, monotonic step) per step, plus one jump of the wall
+# clock / of both clocks after the given step.  0 = time stands still; 1 = half a second per step; 2 = 31 s per step
+# (a slow peer: every timeout anybody might invent has run out by the next step); 3 = the wall clock is stepped forward
+# an hour (NTP) after the third step; 4 = stepped back an hour; 5 = both clocks jump an hour (suspend / resume).
+CLOCK_PROGRAMS = {0: (0.0, 0.0, None), 1: (0.5, 0.5, None), 2: (31.0, 31.0, None),
+                  3: (0.01, 0.01, (3, 3600.0, 0.0)), 4: (0.01, 0.01, (3, -3600.0, 0.0)),
+                  5: (0.01, 0.01, (3, 3600.0, 3600.0))}
+
+
 class RealTunnel:
-    def __init__(self, maxchan=65535, bufsize=32768, chani=0, extra_occ=(), verbose=0, platform=0):
+    def tick(self):
+        dw, dm, jump = CLOCK_PROGRAMS[self.clock]
+        self.nticks += 1
+        self.now += dw
+        self.mono += dm
+        if jump and self.nticks == jump[0]:
+            self.now += jump[1]
+            self.mono += jump[2]
+
+    def __init__(self, maxchan=65535, bufsize=32768, chani=0, extra_occ=(), verbose=0, platform=0, clock=0):
         """platform: 0 = POSIX errno numbering; 1 = the numbering of a platform where a would-block on a socket is
         reported as errno.EWOULDBLOCK = 10035 and differs from errno.EAGAIN (Windows).
         verbose: the verbosity both processes run at (0-3); 10 + v = verbosity v with a stderr that is gone.
         Whatever the verbosity and whatever happens to the diagnostics, the behaviour must be the same, and nothing but
-        the Mux may write to the process's stdout (in the server that is the tunnel itself)."""
+        the Mux may write to the process's stdout (in the server that is the tunnel itself).
+        clock: what the two clocks do while the scenario runs (CLOCK_PROGRAMS): a TCP flow's bytes and its end do not
+        depend on what time it is, how long a step took, or on the wall clock being stepped."""
         import sshuttle.ssnet as ssnet
         import sshuttle.client as client
         import sshuttle.server as server
@@ -267,6 +287,7 @@ class RealTunnel:
         self.ssnet, self.client, self.server, self.helpers = ssnet, client, server, helpers
         self.saved = dict(max=ssnet.MAX_CHANNEL, buf=ssnet.LATENCY_BUFFER_SIZE, socket=ssnet.socket,
                           nbio=ssnet.set_non_blocking_io, select=ssnet.select, ctime=client.time.time,
+                          cmono=client.time.monotonic,
                           stderr=sys.stderr, stdout=sys.stdout, verbose=helpers.verbose)
         self.saved['ewouldblock'] = errno.EWOULDBLOCK
         self.saved['wb'] = WOULD_BLOCK[0]
@@ -280,7 +301,10 @@ class RealTunnel:
         ssnet.MAX_CHANNEL = maxchan
         ssnet.LATENCY_BUFFER_SIZE = bufsize
         ssnet.set_non_blocking_io = lambda fd: None
-        client.time.time = lambda: 1000.0
+        self.clock, self.nticks = clock, 0
+        self.now, self.mono = 1000.0, 77.25
+        client.time.time = lambda: self.now
+        client.time.monotonic = lambda: self.mono
         client.dnsreqs.clear()
         client.udp_by_src.clear()
         self.flows = []
@@ -361,6 +385,7 @@ class RealTunnel:
         ssnet.set_non_blocking_io = self.saved['nbio']
         ssnet.select = self.saved['select']
         client.time.time = self.saved['ctime']
+        client.time.monotonic = self.saved['cmono']
         sys.stderr = self.saved['stderr']
         sys.stdout = self.saved['stdout']
         self.helpers.verbose = self.saved['verbose']
@@ -736,9 +761,9 @@ def canon_model_line(line):
 class Script:
     """Runs a list of step tuples on the real tunnel, producing model input + real output lines."""
 
-    def __init__(self, maxchan=65535, bufsize=32768, chani=0, extra_occ=(), verbose=0, platform=0):
-        self.cfg = (maxchan, bufsize, chani, tuple(extra_occ), verbose, platform)
-        self.t = RealTunnel(maxchan, bufsize, chani, extra_occ, verbose, platform)
+    def __init__(self, maxchan=65535, bufsize=32768, chani=0, extra_occ=(), verbose=0, platform=0, clock=0):
+        self.cfg = (maxchan, bufsize, chani, tuple(extra_occ), verbose, platform, clock)
+        self.t = RealTunnel(maxchan, bufsize, chani, extra_occ, verbose, platform, clock)
         self.ins = ['init %d %d %d %s' % (maxchan, bufsize, chani, ' '.join(str(c) for c in extra_occ))]
         self.ins[0] = self.ins[0].rstrip()
         self.outs = [self.t.show()]
@@ -750,6 +775,7 @@ class Script:
         extra = ''
         if t.died:
             return False      # the process is gone; the model freezes too
+        t.tick()
         if k == 'idle':
             # a real runonce with nothing ready = remove dead handlers + every pre_select, in order
             end = st[1]
